@@ -15,8 +15,9 @@ Record reg_ok (X : list Z) (ms : list module) (sb : list (Z * list Z)) (lg : lis
              m_reg (find_mod c ms) = true /\ m_closed (find_mod c ms) = false /\ In t (m_subs (find_mod c ms));
   ro_sorted : forall t, sorted (alookup t sb);
   ro_all : forall m, In m ms -> In ALLT (m_subs m) -> m_subs m = [ALLT];
-  (* a refused/failed module can linger in logger_modules after its removal (connect_module adds it
-     after nested logging may already have removed it); it is skipped because it is no longer registered *)
+  (* stated for registered members only: before /repo 926cc4e connect_module could add a module that nested logging
+     had already removed (it was skipped, being unregistered); since that fix only a registered module joins the
+     set, and this weaker clause is all the later proofs use *)
   ro_log : forall c, In c lg -> m_reg (find_mod c ms) = true ->
              m_closed (find_mod c ms) = false /\ m_logger (find_mod c ms) = true
              /\ m_connected (find_mod c ms) = true;
